@@ -404,10 +404,11 @@ func c10overlap() zzmc.Scenario {
 			local.conn = w.newSock("a0", "10.0.0.1", 4000, "")
 			a.addPair(local, remote).state = CandidatePairStateSucceeded
 			res := map[string]string{}
-			s.Go("T1", func() { res["T1"] = fmt.Sprint(a.RenominateCandidate(local, remote)) })
-			s.Go("T2", func() { res["T2"] = fmt.Sprint(a.RenominateCandidate(local, remote)) })
+			s.Go("T1", func() { r := fmt.Sprint(a.RenominateCandidate(local, remote)); csRec(func() { res["T1"] = r }) })
+			s.Go("T2", func() { r := fmt.Sprint(a.RenominateCandidate(local, remote)); csRec(func() { res["T2"] = r }) })
 			s.Go("T3", func() {
-				res["T3"] = fmt.Sprint(a.loop.Run(a.loop, func(context.Context) { enter("task") }))
+				r := fmt.Sprint(a.loop.Run(a.loop, func(context.Context) { enter("task") }))
+				csRec(func() { res["T3"] = r })
 			})
 
 			return func(dead string) (string, string) {
@@ -567,14 +568,17 @@ func c10startRace() zzmc.Scenario {
 			if err != nil {
 				panic(err)
 			}
-			res := map[string]error{}
-			conns := map[string]*Conn{}
-			s.Go("DIAL", func() { conns["DIAL"], res["DIAL"] = a.StartDial("remoteUfragD", "remotePwdDremotePwdDremotePwdD") })
-			s.Go("ACCEPT", func() { conns["ACCEPT"], res["ACCEPT"] = a.StartAccept("remoteUfragA", "remotePwdAremotePwdAremotePwdA") })
+			// one slot per thread: the tails of two calls may run side by side (the second start waits on a mutex of the agent)
+			var dialConn, acceptConn *Conn
+			var dialErr, acceptErr error
+			s.Go("DIAL", func() { dialConn, dialErr = a.StartDial("remoteUfragD", "remotePwdDremotePwdDremotePwdD") })
+			s.Go("ACCEPT", func() { acceptConn, acceptErr = a.StartAccept("remoteUfragA", "remotePwdAremotePwdAremotePwdA") })
 
 			return func(dead string) (string, string) {
 				fail := ""
 				won := ""
+				res := map[string]error{"DIAL": dialErr, "ACCEPT": acceptErr}
+				conns := map[string]*Conn{"DIAL": dialConn, "ACCEPT": acceptConn}
 				for _, n := range []string{"DIAL", "ACCEPT"} {
 					switch {
 					case res[n] == nil && conns[n] != nil:
